@@ -68,6 +68,26 @@ NEEDS.update({
 })
 SRC_OVERRIDE = {n: "/tmp/mut2/%s/_out/%s" % (n[:3], "A" if n[3] == "C" else "B") for n in NEEDS if n[3] in "CD"}
 
+NEEDS.update({
+ "C06C": ("C14", "map2_to_curve: 'single isogeny' optimisation - adds on the isogenous curve unless u0 == u1", "distinct field elements with coinciding SSWU images (not reachable from a message: a C14 break, C06 cannot see it)"),
+ "C06D": ("C14", "map2_to_curve returns the identity early when u0 == -u1", "u0 = u1 = 0 (0 is its own negative): the result must be 2*map(0)"),
+ "C08C": ("C08", "inherent Fq::pow that skips all-zero exponent limbs together with their 64 squarings", "a multi-limb exponent with an all-zero limb below a non-zero limb, e.g. [0, 1]"),
+ "C08D": ("C08", "inherent Fr::sub_assign reducing with > instead of >=", "subtracting equal non-zero operands: the result is r, a second representation of zero (prints 0, is_zero() false)"),
+ "C09C": ("C09", "Fq6::mul_by_01 shortcut for c1 == 0 multiplies self.c2 by c1 instead of c0", "sparse operand with c1 = 0 and self.c2 != 0 (also mul_by_014 with c1 = 0 or c1 = -c4)"),
+ "C09D": ("C09", "Fq6::inverse subfield shortcut guarded by c1.is_zero() && c1.is_zero()", "Fq6 element with c1 = 0, c2 != 0 (v^2 gets None)"),
+ "C11C": ("C11", "pairing_product shortcut for an identity in the second pair returns pairing(p1, q2)", "second pair contains an identity, first pair non-trivial"),
+ "C11D": ("C11", "pairing_multi_product skips G2 preparation for identity G1 elements but pairs by index", "a G1 identity at a non-final position of a list of at least two pairs"),
+ "C12C": ("C12", "Fq6::mul_assign shortcut for a right operand in Fq2 drops the v^2 coefficient", "f with one Fq6 coefficient in Fq2 and not in a proper subfield, e.g. 1 + w"),
+ "C12D": ("C12", "Fq12::inverse shortcut for c0 = 0 computes c1^-1 * v", "f = g*w (c0 = 0, c1 != 0), e.g. f = w"),
+ "C13C": ("C13", "XMD oversize-tag hashing with guard dst.len() < 255", "a tag of exactly 255 bytes"),
+ "C13D": ("C13", "Fr::from_okm final addition inlined with > instead of >= in the reduction", "a 48-byte block that is a non-zero exact multiple of r: a non-canonical zero (prints 0, != zero())"),
+ "C14C": ("C14", "map2_to_curve returns the identity early when p1 == -p2", "u0 = u1 = 0"),
+ "C14D": ("C14", "eval_iso returns early when the x-denominator vanishes", "inputs whose SSWU image is one of the rational kernel points of the G1 11-isogeny"),
+ "C20C": ("C20", "mul_precomp_3 keeps its 16-entry table in a function-local static mut behind a try-lock that every caller releases", "three or more overlapping calls on the same curve from different threads"),
+ "C20D": ("C20", "G1Compressed::into_affine keeps a thread-local memo of the last decoding, written before the subgroup check", "decoding the same on-curve, non-subgroup encoding twice on one thread: Err then Ok"),
+})
+SRC_OVERRIDE.update({n: "/tmp/mut2/%s/_out/%s" % (n[:3], "A" if n[3] == "C" else "B") for n in NEEDS if n[3] in "CD"})
+
 
 def first_line(path, pat):
     try:
